@@ -16,8 +16,8 @@ import subprocess
 import time
 
 MIRIFLAGS = "-Zmiri-disable-isolation -Zmiri-ignore-leaks"
-# (entries without cut, entries with cut, entries with a cut under not/time, shards, per-shard time-out in s)
-TIERS = {"quick": (28, 52, 16, 16, 600), "thorough": (240, 480, 160, 16, 3600)}
+# (entries without cut, entries with cut, entries with a cut under not/time, list built-in scenarios, shards, per-shard time-out in s)
+TIERS = {"quick": (24, 44, 12, 24, 16, 600), "thorough": (240, 480, 160, 240, 16, 3600)}
 
 
 def miri_cmd(path):
@@ -99,16 +99,16 @@ def replay(chk, pid, path, seed):
 
 def run(chk, pid, tier, seed, workers, cases, strict):
     t0 = time.time()
-    n0, n1, n2, shards, timeout = TIERS[tier]
+    n0, n1, n2, n3, shards, timeout = TIERS[tier]
     if cases is not None:
-        n0, n1, n2 = max(1, cases // 3), max(1, cases // 2), max(1, cases // 6)
+        n0, n1, n2, n3 = max(1, cases // 4), max(1, cases // 3), max(1, cases // 6), max(1, cases // 4)
     shards = max(1, min(shards, workers))
     ubdir = os.path.join(chk.VERIF, "work", "ub")
     os.makedirs(ubdir, exist_ok=True)
     for f in os.listdir(ubdir):
         os.unlink(os.path.join(ubdir, f))
     corpus = os.path.join(ubdir, "corpus.jsonl")
-    r = subprocess.run([chk.BIN, "ubcorpus", corpus, str(seed), str(n0), str(n1), str(n2)], env=chk.ENV, cwd=chk.VERIF,
+    r = subprocess.run([chk.BIN, "ubcorpus", corpus, str(seed), str(n0), str(n1), str(n2), str(n3)], env=chk.ENV, cwd=chk.VERIF,
                        stdout=subprocess.PIPE, stderr=subprocess.PIPE, text=True)
     native_crash = None
     if r.returncode < 0:
@@ -116,7 +116,7 @@ def run(chk, pid, tier, seed, workers, cases, strict):
         # of undefined behaviour). Generate the corpus without native runs and let Miri name the cause.
         native_crash = "the native run of generated histories died with signal %d" % (-r.returncode)
         chk.log(native_crash + "; regenerating the corpus without native runs")
-        r = subprocess.run([chk.BIN, "ubcorpus", corpus, str(seed), str(n0), str(n1), str(n2), "--no-native"], env=chk.ENV, cwd=chk.VERIF,
+        r = subprocess.run([chk.BIN, "ubcorpus", corpus, str(seed), str(n0), str(n1), str(n2), str(n3), "--no-native"], env=chk.ENV, cwd=chk.VERIF,
                            stdout=subprocess.PIPE, stderr=subprocess.PIPE, text=True)
     if r.returncode != 0:
         chk.log(r.stderr[-2000:])
@@ -180,7 +180,7 @@ def run(chk, pid, tier, seed, workers, cases, strict):
             inconclusive.append(res["inconclusive"])
 
     def nontrivial(e, did):
-        return bool(e.get("cut_executed")) or "fired during search: true" in did
+        return bool(e.get("cut_executed")) or bool(e.get("nontrivial")) or "fired during search: true" in did
     hashes = set()
     classes = {}
     samples = []
@@ -196,7 +196,7 @@ def run(chk, pid, tier, seed, workers, cases, strict):
                 samples.append({"program": e.get("text"), "history": e.get("kind"), "executed": did})
     merged = {
         "evaluations": len(done), "distinct_nontrivial": len(hashes),
-        "rule": "programs from the C01-C05 generators (cut at any position, not, nested and/or, anonymous variables) whose reference search is small (<= 250 steps) and whose native answer count equals the reference's, plus API-built programs in which a cut executes underneath one or two levels of not(...) / time(...) (expected count = the native run's); each is replayed under Miri (Stacked Borrows, data-race detection, leaks ignored) through one of five histories: enumerate + 2 re-asks; solve_all + solve; abandoned query + second query; parse from text + solve + parser calls on odd input; 15 ms timer firing during a slow search + sleep/cancel/read. Oracle: no Undefined Behavior diagnostic, and the answer count under Miri equals the native one. Non-trivial = the history executed a cut, or the timer fired while the search was running; distinct by (program, history).",
+        "rule": "programs from the C01-C05 generators (cut at any position, not, nested and/or, anonymous variables) whose reference search is small (<= 250 steps) and whose native answer count equals the reference's, plus API-built programs in which a cut executes underneath one or two levels of not(...) / time(...) (expected count = the native run's), plus one-rule programs from the list built-in generators of C16/C17 (append, count, include, exclude, functor, join over lists with bound tails, rule-built lists, bound-variable elements); each is replayed under Miri (Stacked Borrows, data-race detection, leaks ignored) through one of five histories: enumerate + 2 re-asks; solve_all + solve; abandoned query + second query; parse from text + solve + parser calls on odd input; 15 ms timer firing during a slow search + sleep/cancel/read. Oracle: no Undefined Behavior diagnostic, and the answer count under Miri equals the native one. Non-trivial = the history executed a cut, or the timer fired while the search was running, or a list built-in walked a bound tail / rule-built list; distinct by (program, history).",
         "samples": samples, "classes": classes, "discards": {}, "discard_rate": 0.0, "known_hits": known_hits,
         "workers": len(paths),
         "notes": ["miri flags: %s -Zmiri-seed=<VERIF_SEED + shard>" % MIRIFLAGS,
